@@ -61,12 +61,14 @@ COMMON_ND = "value-level behaviour (element-for-element equality, arithmetic res
 
 PROPS = {
     "C01": {
-        "rules": [BR.r_bracket, BR.r_reader_writer, BR.r_fanout, BR.r_columns, FW.r_forward,
+        "rules": [HF.r_bitcopy, BR.r_bracket, BR.r_reader_writer, BR.r_fanout, BR.r_columns, FW.r_forward,
                   todo({"push", "index"}, ("Region", "Push")), X.r_iter_readitems,
                   A.r_freeze, A.r_foreign_writers, A.r_reject_stored, I.r_concat, CD.r_tags, CD.r_bitmap, CD.r_literal_guard, O.r_zip_byref, FW.r_skip_take,
                   L.r_reset, A.r_append, CD.r_stats, FW.r_pushstorage, CD.r_decode_total, O.r_byref_while, CD.r_bytesmap, HF.r_chunk, HF.r_chunk_align, I.r_len_step],
         "explanation": "Static analysis of the un-instantiated MIR of every Push/Region impl: decides the structural necessary conditions of the round trip for all instantiations and paths, not the value equality itself.",
         "decided": [
+            "R-LEN-STEP also under the round trip: a value Stride::push accepts is represented by the state it leaves (a saturated stride does not resume stepping)",
+            "R-APPEND (whole-byte copies): no push path copies whole bytes for a range of bits into the encoded buffer without masking the tail",
             "R-CHUNK (alignment): every (chunk, count) pair BitIterator::next returns shifts the byte by 8 - (cursor % 8) - count: the chunk starts at the cursor's offset within the byte (an item that starts and ends inside one byte is not read from the top of the byte)",
 
             "R-BRACKET: every non-forwarding push of a (start,end)/position-indexed storage returns (len before its appends, len after) resp. len-1-seed, with exactly the appends on that storage in between",
@@ -84,11 +86,12 @@ PROPS = {
         "not_decided": ["element-for-element equality of values, NaN/ZST/extreme values, panics inside std", "lossy integer narrowing of values that the writer and the reader side both derive from one source (seeded change C01_d2: Huffman encode table narrowed to u32 codes; whether a value fits is value-level)", COMMON_ND],
     },
     "C02": {
-        "rules": [A.r_append, A.r_freeze, A.r_foreign_writers, A.r_reject_stored, I.r_concat, CO.r_collapse_push, HF.r_chunk, HF.r_chunk_align,
+        "rules": [HF.r_bitcopy, A.r_append, A.r_freeze, A.r_foreign_writers, A.r_reject_stored, I.r_concat, CO.r_collapse_push, HF.r_chunk, HF.r_chunk_align,
                   only(L.r_reset, INDEX_ONLY | DENSE_ONLY)],
         "thorough": [X.witness("C02")],
         "explanation": "Every body reachable from the write/reserve API (closures and local helpers included) is scanned for destructive, clearing or replacing effects on item storage; the one Vec::pop is justified by R-PEEL; the representation switches are guarded (R-GUARD).",
         "decided": [
+            "R-APPEND (whole-byte copies): no push path leaves foreign bits behind the bit cursor for the next item to be merged onto",
             "R-CHUNK (alignment): every (chunk, count) pair BitIterator::next returns shifts the byte by 8 - (cursor % 8) - count: the chunk starts at the cursor's offset within the byte (an item that starts and ends inside one byte is not read from the top of the byte)",
 
             "R-APPEND: no destructive/clear/replace effect on item storage in any push/reserve path",
@@ -107,6 +110,7 @@ PROPS = {
         "thorough": [X.witness("C03")],
         "explanation": "FlatStack's pairing of region indices with the index container and its delegation table are checked on the MIR for every R and S.",
         "decided": [
+            "R-OVF (exact acceptance): Stride::push compares the pushed value with the exact next element -- no saturating_* / wrapping_* product or sum in the acceptance test",
             "R-PAIRING: in copy/extend every region.push result flows unchanged into exactly one indices.push on every path; from_iter = with_capacity + extend",
             "R-DELEGATE / R-ITER: len, is_empty, get, iter, into_iter, Iter::next, size_hint delegate with unchanged arguments",
             "R-RESET, R-CLONE for FlatStack, its Iter and the index containers a stack stores its indices in (a hand-written clone/clone_from must copy every field on every path)",
@@ -122,6 +126,7 @@ PROPS = {
         "thorough": [X.witness("C04")],
         "explanation": "Program-text property: inventory of unchecked str constructions and of everything that can write StringRegion's byte region, over the type-checked crate.",
         "decided": [
+            "R-BYREF: no by_ref().take_while/map_while on an iterator polled again afterwards (an index lost at the stride-to-spill switch shifts every later string of a slice)",
             "R-UNSAFE: the only unchecked str construction in the crate is from_utf8_unchecked(self.inner.index(index)) in StringRegion::index; no cast produces a str",
             "R-STRWRITE: every byte push into StringRegion.inner is str::as_bytes(..) of a string-typed item; the field is private; no method hands out &mut to it; lifecycle methods only reserve/clear/clone it; DictionaryCodec::decode returns its argument or a whole dictionary entry",
             "compile-fail witnesses: pushing byte types into a StringRegion does not type-check",
@@ -137,6 +142,7 @@ PROPS = {
                   B.r_bound_stride_sites, B.r_index_failstop, only(L.r_reset, {"Stride", "IndexList", "IndexOptimized"}), only(L.r_clone, INDEX_ONLY)],
         "explanation": "Overflow-checked arithmetic is visible in MIR as Assert(Overflow) terminators; taint from pushed values is propagated through the Stride state; the representation order of the two-level containers is checked for agreement between push, index, len, is_empty, iter and clear.",
         "decided": [
+            "R-OVF (exact acceptance): Stride::push compares the pushed value with the exact next element -- no saturating_* / wrapping_* product or sum in the acceptance test",
             "R-OVF: no overflow-checked arithmetic on a pushed value in the write path (build-profile independence, no panic), except stride*(count-1) = last accepted element",
             "R-PANIC: the only other panic edges in the write paths are usize->u64 conversions",
             "R-NOWRITE-ON-REJECT: Stride::push writes nothing on a path that returns false",
@@ -147,10 +153,14 @@ PROPS = {
         "not_decided": ["that the accepted progression is exactly 0, s, 2s, ... then repeats (value-level)", "iterator specialisations that consume the first part themselves before the second (reported as undecided; seeded change C05_f2 trusts a size_hint lower bound as exact)", COMMON_ND],
     },
     "C06": {
-        "rules": [HF.r_refusal, HF.r_code_source, HF.r_stats_and_arms, only(BR.r_bracket, HUFF_ONLY), c06_peel,
-                  only(L.r_reset, HUFF_ONLY), FW.r_forward, HF.r_shift, HF.r_acc_width, HF.r_weights, HF.r_descent, HF.r_tail, HF.r_chunk, HF.r_chunk_align, only(L.r_clone, HUFF_ONLY), O.r_onto],
+        "rules": [HF.r_bitcopy, HF.r_refusal, HF.r_code_source, HF.r_stats_and_arms, only(BR.r_bracket, HUFF_ONLY), c06_peel,
+                  only(L.r_reset, HUFF_ONLY), FW.r_forward, HF.r_shift, HF.r_acc_width, HF.r_weights, HF.r_descent, HF.r_restock, HF.r_tail, HF.r_chunk, HF.r_chunk_align, only(L.r_clone, HUFF_ONLY), O.r_onto],
         "explanation": "Only the structural clauses of the Huffman contract are decided; exact decoding, optimality and alphabet-size behaviour are numeric and stay undecided.",
         "decided": [
+            "R-SHIFT (width): the encoder's accumulator is at least 7 bits wider than the longest code the code table's type admits (capped at 57)",
+            "R-OPTIMAL (weights): create_from and its helpers never rewrite a stored weight in place as a function of itself (no rescaling / clamping of the statistics before the tree is built)",
+            "R-DESCENT (restock): the decoder polls its input inside the table-walk loop, so every round of a multi-level code can restock the bit window",
+            "R-APPEND (whole-byte copies): no push path copies whole bytes for a range of bits into the encoded buffer without masking the tail",
             "R-CHUNK (alignment): every (chunk, count) pair BitIterator::next returns shifts the byte by 8 - (cursor % 8) - count: the chunk starts at the cursor's offset within the byte (an item that starts and ends inside one byte is not read from the top of the byte)",
 
             "R-REFUSE: a symbol without a code reaches only a panicking unwrap, never a substitute code",
@@ -171,6 +181,8 @@ PROPS = {
                   only(L.r_reset, CODEC_ONLY | {"DictionaryCodec"}), only(L.r_fresh, CODEC_ONLY), CD.r_dedup, L.r_reserve_only, CD.r_update_weight, CD.r_decode_total, CD.r_bytesmap, CD.r_stats_order, CD.r_done_lossless, only(A.r_append, CODEC_ONLY | {"DictionaryCodec"})],
         "explanation": "Reader/writer table agreement and guard placement of the dictionary codec are decided on the MIR; selection quality of the heavy hitters is not.",
         "decided": [
+            "R-STATS (done): what MisraGries::done returns does not depend on the allocation's capacity (new_from calls it on a clone)",
+            "R-APPEND for the codec: encode never removes from / rewrites the reader or writer table",
             "R-GUARD: the literal store is reachable only over an edge that saw an empty input or an unassigned first byte in the reader's table",
             "R-BOUND: no positional read of the caller's slice without a non-empty guard",
             "R-TAGS: tags are assigned on the bit-clear edge, both tables are written together with the same bytes and the loop's tag, one table entry per non-exhausted iteration",
@@ -204,7 +216,8 @@ PROPS = {
                   todo({"reserve_items", "reserve_regions", "merge_regions", "reserve", "with_capacity"}),
                   CD.r_tags, CD.r_bitmap, HF.r_code_source, CD.r_stats, c06_peel, HF.r_stats_and_arms, L.r_merge_sources_may_be_empty, CD.r_bytesmap, HF.r_tail, CD.r_literal_guard, HF.r_refusal],
         "explanation": "Reserve paths may only read/measure/reserve; merged regions are built from empty-sized constructors and seeded like default().",
-        "decided": ["R-RESERVE-ONLY", "R-FRESH", "R-SEED", "R-TODO", "for the dictionary-coded region, the merged codec's reader and writer tables agree (R-TAGS/R-BITMAP)",
+        "decided": [
+            "R-GUARD (literal) and R-REFUSE also under C10: a merged coded region refuses exactly what its acceptance contract says","R-RESERVE-ONLY", "R-FRESH", "R-SEED", "R-TODO", "for the dictionary-coded region, the merged codec's reader and writer tables agree (R-TAGS/R-BITMAP)",
             "R-FRESH (empty sources): no merge / reserve body looks a source up at `len - k` without a test that it is non-empty (sources may be fresh or cleared regions)",
             "R-HUFF-ARMS: every push form of the Huffman container, in every arm (raw / encoded source into raw / encoded target), counts each stored symbol: the code of the next merge generation is built from these counts alone, so an uncounted symbol has no code there and pushing it panics",
             "R-PEEL: in the encoded state a merged Huffman region is in from its first push, the partial last byte is popped, re-presented and re-emitted together with the new symbols on every path (an early return between the pop and the re-emit loses the tail of the previous item)",
@@ -216,7 +229,8 @@ PROPS = {
                   only(SD.r_serde, CS_ONLY), L.r_reserve_only, CO.r_collapse_remembers, L.r_reset,
                   I.r_concat, I.r_stride_iter, B.r_bound_stride_sites],
         "explanation": "The collapse decision and the lifecycle of last_index are path properties of one small function and five lifecycle methods.",
-        "decided": ["R-COLLAPSE: early return only on the equality-true edge against inner.index(last_index), writes nothing; otherwise one inner.push whose result is remembered and returned",
+        "decided": [
+            "R-CONCAT / R-ITER / R-BOUND for the index containers: the repeated indices a collapsing region hands out are read back clamped from a saturated stride, by index() and by iteration","R-COLLAPSE: early return only on the equality-true edge against inner.index(last_index), writes nothing; otherwise one inner.push whose result is remembered and returned",
                     "last_index is None after default/merge_regions/clear, copied by clone/clone_from (R-CLONE for every region it can be nested in), serialised",
                     "R-COLLAPSE (every writer): any method of CollapseSequence that stores an item in the inner region writes last_index on every path from that store to its return (batch hooks and helpers included)",
                     "R-RESERVE-ONLY: reserve paths only measure and reserve; in particular they do not forget the remembered last item (a reserve in the middle of a run of equal items would store the item again)"],
@@ -227,7 +241,8 @@ PROPS = {
                   BR.r_reader_writer, BR.r_columns, only(A.r_append, DENSE_ONLY), only(L.r_fresh, DENSE_ONLY),
                   BR.r_bracket, A.r_freeze, A.r_foreign_writers, A.r_reject_stored, I.r_concat, only(L.r_clone, DENSE_ONLY), O.r_onto, I.r_len_step, X.r_iter_readitems],
         "explanation": "Dense indices follow from one append of the end offset per push, the seeded leading 0 and index(k) = (offsets[k], offsets[k+1]).",
-        "decided": ["R-BRACKET with seed 1 for ConsecutiveIndexPairs", "R-SEED: exactly one leading 0 in default/merge_regions/clear", "R-READER: index(k) reads offsets k and k+1 in order",
+        "decided": [
+            "R-RESET for the offset containers (IndexOptimized / IndexList / Stride, and Storage::clear of std containers), including a `clear` that a trait provides and the impl inherits","R-BRACKET with seed 1 for ConsecutiveIndexPairs", "R-SEED: exactly one leading 0 in default/merge_regions/clear", "R-READER: index(k) reads offsets k and k+1 in order",
                     "R-COLUMNS: ColumnsRegion returns the inner dense index unchanged, creates missing columns first, rows carry exactly their own index slice",
                     "R-APPEND/R-FRESH for the two types: no write or reserve path drops columns or offsets",
             "R-CLONE for the dense-index regions: a copy made by clone/clone_from carries every column and every offset (creation by copying counts as creation)",
@@ -241,7 +256,8 @@ PROPS = {
                   X.r_iter_positions, A.r_freeze, A.r_foreign_writers, X.r_exact_size, I.r_concat, I.r_stride_iter,
                   BR.r_reader_writer, only(L.r_clone, DENSE_ONLY | INDEX_ONLY), only(L.r_reset, DENSE_ONLY), FW.r_skip_take, BR.r_bracket, L.r_reserve_only, BR.r_columns, O.r_byref_while],
         "explanation": "Every positional access into shared storage must be dominated by a strict bound of the position against the item's own extent (the linear form len() returns).",
-        "decided": ["R-BOUND for ReadSlice/ReadSliceInner/ReadColumns/ReadColumnsInner/FlatStack get", "len/is_empty agreement", "R-ITER: iteration covers start..end; every iterator method (next and specialisations) takes its positions from the underlying range iterator",
+        "decided": [
+            "R-BYREF: no by_ref().take_while/map_while on an iterator polled again afterwards (the element that ends the stride is not dropped from a slice)","R-BOUND for ReadSlice/ReadSliceInner/ReadColumns/ReadColumnsInner/FlatStack get", "len/is_empty agreement", "R-ITER: iteration covers start..end; every iterator method (next and specialisations) takes its positions from the underlying range iterator",
             "R-GUARD: the two-level offset containers that positional reads go through keep push order (the first level is written only while the second is empty), so position i of an item is never another item's element",
             "R-ITER (exact size): every local ExactSizeIterator impl is backed by a size_hint (or len) override taken from the underlying iterator; without one the provided len() panics on every call (found ReadSliceIter / ReadSliceIterInner, fixed in /repo eda620f)",
             "R-CONCAT / R-ITER: len, is_empty and iteration of the index containers behind FlatStack::get agree with index() (is_empty looks at both levels; StrideIter yields strided.index(cursor))",
@@ -251,10 +267,11 @@ PROPS = {
         "not_decided": [COMMON_ND],
     },
     "C14": {
-        "rules": [O.r_onto, O.r_onto_nopanic, O.r_zip_byref, O.r_owned_conversions, O.r_reborrow, FW.r_forward, FW.r_sibling,
-                  HF.r_stats_and_arms, BR.r_bracket, CMP.r_cmp, FW.r_skip_take, only(L.r_reset, HUFF_ONLY), X.r_iter_positions],
+        "rules": [HF.r_bitcopy, O.r_onto, O.r_onto_nopanic, O.r_zip_byref, O.r_owned_conversions, O.r_reborrow, FW.r_forward, FW.r_sibling,
+                  HF.r_stats_and_arms, BR.r_bracket, CMP.r_cmp, FW.r_skip_take, only(L.r_reset, HUFF_ONLY), X.r_iter_positions, HF.r_descent, HF.r_restock, HF.r_tail],
         "explanation": "clone_onto must overwrite its target on every path (and force its length), reborrow is the identity, borrow_as/into_owned are built from the whole value.",
-        "decided": ["R-ONTO (every path overwrites the target and forces its length; no access bounded by the target's previous length)", "R-WHOLE", "R-REBORROW",
+        "decided": [
+            "R-DESCENT / R-TAIL: the decoder behind into_owned / clone_onto / region-to-region copies restocks in every round and refuses only with undecoded bits pending","R-ONTO (every path overwrites the target and forces its length; no access bounded by the target's previous length)", "R-WHOLE", "R-REBORROW",
                     "region-to-region push: Push<ReadItem> impls forward / agree with their canonical siblings (R-FORWARD, R-SIBLING, R-BRACKET, R-HUFF-ARMS)",
             "R-RESET (Huffman) / R-ITER: a cleared Huffman region falls back to raw storage (a region that keeps its code table panics on the first copied item with a new symbol); the read-item iterators' specialised methods (nth, fold, ...) take their positions from the item's own range",
             "R-CMP: the equality through which a copy is compared with its source decodes both sides (no representation-dependent early exit); skip-take as under C01"],
@@ -270,19 +287,21 @@ PROPS = {
                         "hand-written element loops without a comparator call, and fast paths that compare the encoded representation instead of the decoded elements (whether two encodings are equal exactly when the values are is value-level; seeded change C15_c3 is not detected)"],
     },
     "C16": {
-        "rules": [SD.r_serde, A.r_foreign_writers],
+        "rules": [SD.r_serde_buffered, SD.r_serde, A.r_foreign_writers],
         "thorough": [X.witness("C16")],
         "explanation": "The serde-derive output is ordinary MIR: every field must be handed to the serializer unconditionally and rebuilt from the input without defaults.",
-        "decided": ["R-SERDE for every type with a derived Serialize",
+        "decided": [
+            "R-SERDE (buffered): no Deserialize path goes through serde's buffered Content tree (untagged / flatten / internally tagged), which cannot hold 128-bit integers and needs a self-describing format","R-SERDE for every type with a derived Serialize",
                     "R-GUARD (foreign writers): code outside a two-level index container's own push (a hand-written deserialisation visitor, a bulk path) that appends to its first level in a loop which also appends to the second level must test that the second level is empty"],
         "not_decided": ["the data format; behaviour of the copy (follows from state equality + determinism)",
                         "hand-written Serialize/Deserialize impls beyond that structural clause (their wire format is value-level; seeded change C16_j1, a hand-written element-wise encoder of IndexOptimized that writes the saturated plateau as stride*count, is not detected)"],
         "assumptions": ["only meaningful in the serde feature configuration"],
     },
     "C17": {
-        "rules": [AL.r_cover_merge, AL.r_cover_reserve, AL.r_cover_reserve_vec, AL.r_reserve_items_agree, AL.r_reserve_exact_count, AL.r_noalloc, AL.r_reserve_no_truncation, AL.r_reserve_hint_lower, AL.r_reserve_additional, AL.r_reserve_cumulative, AL.r_capacity_uncapped, FW.r_skip_take, A.r_reserve_level, AL.r_reserve_counts_elements],
+        "rules": [AL.r_reserve_single_item, AL.r_cover_merge, AL.r_cover_reserve, AL.r_cover_reserve_vec, AL.r_reserve_items_agree, AL.r_reserve_exact_count, AL.r_noalloc, AL.r_reserve_no_truncation, AL.r_reserve_hint_lower, AL.r_reserve_additional, AL.r_reserve_cumulative, AL.r_capacity_uncapped, FW.r_skip_take, A.r_reserve_level, AL.r_reserve_counts_elements],
         "explanation": "Pre-sizing must cover every storage field from the same-named field of the sources; push paths of non-coded regions build no temporaries and never exact-fit.",
-        "decided": ["R-COVER(merge_regions)", "R-COVER(reserve_regions)", "R-RESERVE-ITEMS", "R-NOALLOC / R-AMORTISED",
+        "decided": [
+            "R-RESERVE-ITEMS (all items): no reserve in reserve_items / reserve_regions is sized from a single element pulled out of the announced items","R-COVER(merge_regions)", "R-COVER(reserve_regions)", "R-RESERVE-ITEMS", "R-NOALLOC / R-AMORTISED",
             "R-RESERVE-ITEMS (additional): no reserve amount contains the receiver's own length",
             "R-RESERVE-ITEMS (un-stepped): an iterator of announced items that was advanced by hand is not handed to a child's reserve afterwards",
             "R-COVER (level): reserve of the u32/u64 list reaches the level the next push writes to",
@@ -295,7 +314,8 @@ PROPS = {
     "C18": {
         "rules": [L.r_cover_heap, L.r_retain, L.r_retain_noshrink, todo({"heap_size"}), L.r_reset, L.r_reserve_only],
         "explanation": "heap_size must forward the caller's callback to every storage field and report (len-derived, capacity-derived) in that order.",
-        "decided": ["R-COVER(heap_size)", "R-RETAIN: clear() never replaces a storage whose capacity is reported", "R-TODO",
+        "decided": [
+            "R-COVER (wrappers): a callback wrapper passes the reported size on unreduced (no subtraction / saturating_sub / min of it)","R-COVER(heap_size)", "R-RETAIN: clear() never replaces a storage whose capacity is reported", "R-TODO",
             "R-RESET: clear() resets every storage field on every path (an early return that skips the reset keeps pushed payload accounted after clear)",
             "R-RESERVE-ONLY: reserve paths never shrink or replace a storage (a spine shrunk by resize_with drops payload and capacity from the report without a clear)"],
         "not_decided": ["the byte lower bound against a reference model"],
@@ -312,9 +332,10 @@ PROPS = {
         "not_decided": ["that Stride::push accepts every strided/saturated sequence (value-level; seeded change C19_e1, which rejects the repeated last element when the next step would overflow, is reported by C05's R-OVF only)"],
     },
     "C20": {
-        "rules": [FW.r_forward, FW.r_sibling, FW.r_pushstorage, A.r_freeze, A.r_foreign_writers, A.r_reject_stored, FW.r_skip_take, HF.r_stats_and_arms, BR.r_columns, O.r_byref_while, BR.r_bracket],
+        "rules": [HF.r_bitcopy, FW.r_forward, FW.r_sibling, FW.r_pushstorage, A.r_freeze, A.r_foreign_writers, A.r_reject_stored, FW.r_skip_take, HF.r_stats_and_arms, BR.r_columns, O.r_byref_while, BR.r_bracket],
         "explanation": "Forwarding impls pass the same value on through representation-preserving conversions; canonical impls of one region have the same effect signature; the bulk path of the offset containers (IndexContainer::extend, used by the slice/Vec/array forms) obeys the same representation-switch guards as the element-wise push (used by the read-item form).",
-        "decided": ["R-FORWARD", "R-SIBLING", "PushStorage forms are all append-class",
+        "decided": [
+            "R-APPEND (whole-byte copies): the region-to-region fast paths store no bits past the bit cursor","R-FORWARD", "R-SIBLING", "PushStorage forms are all append-class",
                     "R-GUARD: bulk and element-wise writes of the two-level offset containers append to the first level only while the second is empty (a guard hoisted out of a loop that spills goes stale and is not accepted), and a value the stride rejects is stored in the spill list"],
         "not_decided": ["value equality of the stored bytes"],
     },
